@@ -1276,6 +1276,78 @@ func c14(c *Ctx) {
 		}
 	})
 
+	c.Rule("C14.R9", "the series of one name share that name's entry: in the encoder the by-name level of the message (map[name]*XTagV2) is written once per name - in the loop over names, not once per series - or only where the name is known to have no entry yet; an entry assigned per series replaces the series stored before it", 4, func(r *Rule) {
+		enc := w.Func("pkg/statsd", "translateToProtobufV2")
+		if enc == nil {
+			r.Unresolved("translateToProtobufV2")
+			return
+		}
+		n := 0
+		for _, g := range WithAnon(enc) {
+			// loop headers of g
+			var heads []*ssa.BasicBlock
+			for _, b := range g.Blocks {
+				if loopBody(b) != nil {
+					heads = append(heads, b)
+				}
+			}
+			perSeriesCallback := false
+			if g.Parent() != nil {
+				// a callback handed to X.Each runs once per series
+				eachInstr(g.Parent(), func(in ssa.Instruction) {
+					cl, ok := in.(ssa.CallInstruction)
+					if !ok {
+						return
+					}
+					if cal := staticCallee(cl); cal != nil && cal.Name() == "Each" {
+						for _, a := range cl.Common().Args {
+							if mc, isMC := a.(*ssa.MakeClosure); isMC && mc.Fn == ssa.Value(g) {
+								perSeriesCallback = true
+							}
+						}
+					}
+				})
+			}
+			eachInstr(g, func(in ssa.Instruction) {
+				mu, ok := in.(*ssa.MapUpdate)
+				if !ok {
+					return
+				}
+				mt, ok := mu.Map.Type().Underlying().(*types.Map)
+				if !ok {
+					return
+				}
+				nm := namedOf(derefType(mt.Elem()))
+				if nm == nil || !strings.HasSuffix(nm.Obj().Name(), "TagV2") {
+					return
+				}
+				n++
+				depth := 0
+				for _, h := range heads {
+					if loopBody(h)[mu.Block()] {
+						depth++
+					}
+				}
+				// guarded by "no entry yet" for this name
+				isEntry := func(v ssa.Value) bool {
+					if ex, isEx := v.(*ssa.Extract); isEx {
+						v = ex.Tuple
+					}
+					lk, isLk := v.(*ssa.Lookup)
+					return isLk && pathOf(lk.X) == pathOf(mu.Map) && lk.Index == mu.Key
+				}
+				fs := factsAt(mu.Block())
+				guarded := knownNil(fs, isEntry) || boolKnown(fs, func(v ssa.Value) bool {
+					ex, isEx := v.(*ssa.Extract)
+					return isEx && ex.Index == 1 && isEntry(ex)
+				}, false)
+				once := guarded || (!perSeriesCallback && depth <= 1)
+				r.Check(fmt.Sprintf("by-name-entry:%s:once-per-name#%d", nm.Obj().Name(), n), once, mu.Pos(), fmt.Sprintf("the entry of a name is assigned once per name (loop depth %d, per-series callback %v, guarded by absence %v)", depth, perSeriesCallback, guarded))
+			})
+		}
+		r.Check("by-name-entry:sites", n >= 4, enc.Pos(), fmt.Sprintf("%d assignments of by-name entries", n))
+	})
+
 	c.Rule("C14.R8", "every encoded series owns its slices: no slice stored in a message field is built in a buffer that is re-used (x[:0]) across series", 1, func(r *Rule) {
 		if enc == nil {
 			r.Unresolved("translateToProtobufV2")
